@@ -109,14 +109,16 @@ Inductive vpc :=
 | VIdle            (* the serve goroutine is free to process the next element *)
 | VClose           (* close request: closeNoNotify, before the lock attempt *)
 | VFlush           (* lock obtained: flushing what is buffered *)
-| VBlocked.        (* waiting for writeLock on the serve goroutine *)
+| VBlocked         (* waiting for writeLock on the serve goroutine *)
+| VEnded.          (* the close handler returned the writer's stale error: Serve has returned *)
 
 Record iwstate := mkiw {
   iw_w : wpc; iw_v : vpc;
   iw_aborted : bool;       (* stanzaWriter.aborted *)
-  iw_closed : bool }.      (* the close request was answered *)
+  iw_closed : bool;        (* the close request was answered *)
+  iw_broken : bool }.      (* a data packet failed: the buffered writer keeps that error *)
 
-Definition iw_init : iwstate := mkiw WIdle VIdle false false.
+Definition iw_init : iwstate := mkiw WIdle VIdle false false false.
 
 Inductive iwlabel :=
 | WStart           (* Write/Flush takes writeLock; closed or aborted: it fails at once; else the data IQ is registered *)
@@ -137,54 +139,56 @@ Definition iw_step (blocking : bool) (s : iwstate) (l : iwlabel) : option iwstat
   | WStart =>
       match iw_w s, iw_v s with
       | WIdle, VFlush => None                    (* the serve goroutine holds the lock *)
-      | WIdle, _ => if iw_closed s || iw_aborted s   (* Conn.Write: isClosed; stanzaWriter.Write: aborted *)
-                    then Some (mkiw (WRet false) (iw_v s) (iw_aborted s) (iw_closed s))
-                    else Some (mkiw WHold (iw_v s) (iw_aborted s) (iw_closed s))
+      | WIdle, _ => if iw_closed s || iw_aborted s || iw_broken s   (* Conn.Write: isClosed; stanzaWriter.Write: aborted; bufio: sticky error *)
+                    then Some (mkiw (WRet false) (iw_v s) (iw_aborted s) (iw_closed s) (iw_broken s))
+                    else Some (mkiw WHold (iw_v s) (iw_aborted s) (iw_closed s) (iw_broken s))
       | _, _ => None
       end
   | WSend =>
       match iw_w s with
-      | WHold => Some (mkiw WWait (iw_v s) (iw_aborted s) (iw_closed s))
+      | WHold => Some (mkiw WWait (iw_v s) (iw_aborted s) (iw_closed s) (iw_broken s))
       | _ => None
       end
   | WAck ok =>
       (* replies are delivered by the serve goroutine, one element at a time *)
       match iw_w s, iw_v s with
-      | WWait, VIdle => Some (mkiw (WRet ok) VIdle (iw_aborted s) (iw_closed s))
+      | WWait, VIdle => Some (mkiw (WRet ok) VIdle (iw_aborted s) (iw_closed s) (iw_broken s || negb ok))
       | _, _ => None
       end
   | WDeadline =>
       match iw_w s with
-      | WWait => Some (mkiw (WRet false) (iw_v s) (iw_aborted s) (iw_closed s))
+      | WWait => Some (mkiw (WRet false) (iw_v s) (iw_aborted s) (iw_closed s) true)
       | _ => None
       end
   | WAgain =>
       match iw_w s with
-      | WRet _ => Some (mkiw WIdle (iw_v s) (iw_aborted s) (iw_closed s))
+      | WRet _ => Some (mkiw WIdle (iw_v s) (iw_aborted s) (iw_closed s) (iw_broken s))
       | _ => None
       end
   | VCloseArrive =>
       match iw_v s with
-      | VIdle => if iw_closed s then None else Some (mkiw (iw_w s) VClose (iw_aborted s) (iw_closed s))
+      | VIdle => if iw_closed s then None else Some (mkiw (iw_w s) VClose (iw_aborted s) (iw_closed s) (iw_broken s))
       | _ => None
       end
   | VTry =>
       match iw_v s with
       | VClose =>
           if writer_holds s then
-            if blocking then Some (mkiw (iw_w s) VBlocked true (iw_closed s))
-            else Some (mkiw (iw_w s) VIdle true true)
-          else Some (mkiw (iw_w s) VFlush (iw_aborted s) (iw_closed s))
+            if blocking then Some (mkiw (iw_w s) VBlocked true (iw_closed s) (iw_broken s))
+            else Some (mkiw (iw_w s) VIdle true true (iw_broken s))
+          else Some (mkiw (iw_w s) VFlush (iw_aborted s) (iw_closed s) (iw_broken s))
       | _ => None
       end
   | VUnblock =>
       match iw_v s with
-      | VBlocked => if writer_holds s then None else Some (mkiw (iw_w s) VFlush (iw_aborted s) (iw_closed s))
+      | VBlocked => if writer_holds s then None else Some (mkiw (iw_w s) VFlush (iw_aborted s) (iw_closed s) (iw_broken s))
       | _ => None
       end
   | VFlushDone =>
       match iw_v s with
-      | VFlush => Some (mkiw (iw_w s) VIdle (iw_aborted s) true)
+      | VFlush => if iw_broken s   (* writeBuf.Flush returns the sticky error; the handler returns it *)
+                  then Some (mkiw (iw_w s) VEnded (iw_aborted s) (iw_closed s) true)
+                  else Some (mkiw (iw_w s) VIdle (iw_aborted s) true false)
       | _ => None
       end
   end.
@@ -192,7 +196,7 @@ Definition iw_step (blocking : bool) (s : iwstate) (l : iwlabel) : option iwstat
 Definition wpc_code (p : wpc) : nat :=
   match p with WIdle => 0 | WHold => 1 | WWait => 2 | WRet true => 3 | WRet false => 4 end.
 Definition vpc_code (p : vpc) : nat :=
-  match p with VIdle => 0 | VClose => 1 | VFlush => 2 | VBlocked => 3 end.
+  match p with VIdle => 0 | VClose => 1 | VFlush => 2 | VBlocked => 3 | VEnded => 4 end.
 
 Record iwcase := mkiwcase { wc_trace : list iwlabel; wc_w : nat; wc_v : nat; wc_closed : bool }.
 
